@@ -141,10 +141,38 @@ let run_convert (kill_fixed : bool) (mount_nl : bool) (f : string list) : string
     if !panic then "PANIC" else if !skip then "SKIP" else ok !out
   | [] -> "ERR\tbad-convert"
 
+(* a run over unit files WITH drop-ins: fields  names_after(1|0)  then per file  path  main-text  n  dropin-text*n ; output as "convert" *)
+let run_convert_tree (f : string list) : string =
+  match f with
+  | na :: rest ->
+    let rec take k l acc = if k = 0 then (List.rev acc, l) else (match l with x :: r -> take (k - 1) r (x :: acc) | [] -> (List.rev acc, [])) in
+    let rec files = function
+      | p :: t :: n :: r -> let (ds, r') = take (int_of_string (bare n)) r [] in ((to_str_lossy p, to_str t), List.map to_str ds) :: files r'
+      | _ -> [] in
+    let fs = (try files rest with Bad_utf8 -> []) in
+    let (loads, convs) = M.process_trees podman_bin exists_path true false (bare na = "1") fs in
+    let panic = ref false and skip = ref false in
+    let out = ref [] in
+    List.iter (fun (p, l) ->
+      match l with
+      | M.LOk (_, _) -> ()
+      | M.LParseErr -> out := !out @ ["L"; of_str p; "ERR"; "Unit"; "-"]
+      | M.LTypeErr -> out := !out @ ["L"; of_str p; "ERR"; "UnsupportedQuadletType"; "-"]
+      | M.LPanic -> panic := true) loads;
+    List.iter (fun (p, r) ->
+      match r with
+      | M.ROk (svc, sp) -> out := !out @ (["F"; of_str p; "OK"; of_str sp] @ dump_unit svc)
+      | M.RErr e -> out := !out @ ["F"; of_str p; "ERR"; err_class e; err_detail e]
+      | M.RPanic -> panic := true
+      | M.RSkip -> skip := true) convs;
+    if !panic then "PANIC" else if !skip then "SKIP" else ok !out
+  | [] -> "ERR\tbad-convert-tree"
+
 let run (op : string) (f : string list) : string =
   match op, f with
   | "convert", f -> run_convert true false f
   | "convert_pinned", f -> run_convert false true f
+  | "convert_tree", f -> run_convert_tree f
   | ("links" | "links_pinned"), [out; svcfile; text] ->
       (match parse_text text with
        | None -> "ERR\tUnit"
